@@ -181,7 +181,7 @@ def run(ctx):
         why = "no cancel()/stop() of self.%s in stop()" % a
         cst = ctx.cfg(stop)
         for n, c in hits:
-            deps = cst.control_deps(n.id)
+            deps = cst.control_deps_transitive(n.id)
             def foreign(t):
                 e = at(ctx, stop, t.id, t.stmt.test if t.kind == "test" else t.stmt.iter)
                 own = "self." + a
@@ -262,6 +262,26 @@ def run(ctx):
                     where(h, h.node),
                     "stop() while that activity is live: start()'s Deferred fails with CancelledError / stop() is "
                     "re-entered and the shutdown Deferred never fires", facts=["sinks=%d" % len(sinks)])
+            # a request made through the client and cancelled in flight does not come back as CancelledError: the
+            # client accounts for it as a failed payload and fails with FailedPayloadsError (C07.R5).  While stop()
+            # runs, that failure too is stop()'s own doing and must not reach the start Deferred
+            from_client = False
+            for f3, k3, n3 in prog.attr_accesses(ci, on, False):
+                if k3 == "write" and isinstance(n3, ast.Assign):
+                    og3 = deferred_origins(ctx.cfg(f3), ctx.cfg(f3).node_of(n3).id, n3.value) if ctx.cfg(f3).node_of(n3) is not None else None
+                    if og3 and any(isinstance(o, ast.Call) and call_name(o).startswith("send_") and call_recv(o) == "self.client" for o in og3):
+                        from_client = True
+            if from_client:
+                from .c09 import exc_table
+                anc2, _al2 = exc_table(prog)
+                fatal = [norm(c, 60) for n, c in sinks if call_name(c) == "errback" and (call_recv(c) or "") == "self._start_d"
+                         and case_reach(ch, p, "FailedPayloadsError", anc2, True, {n.id})]
+                r.check(not fatal, "%s#cancelled-in-flight-is-not-an-error(%s)" % (h.qname, on),
+                        "while stop() runs, a request it cancelled in flight - which the client reports as FailedPayloadsError, not "
+                        "CancelledError - can fail the start Deferred (%s)" % fatal, where(h, h.node),
+                        "consumer on the real client with an attempt limit of 1 (or 2 after any successful fetch), stop() with a fetch "
+                        "in flight: the Deferred returned by start() fails with FailedPayloadsError instead of firing with the last "
+                        "processed offset")
 
     # ---- R3 no new activity once stopping
     r = ctx.rule("R3", "scheduling sites are guarded by not-stopping or entered only from start/commit/shutdown or "
@@ -562,21 +582,29 @@ def run(ctx):
 
     # ---- R8 teardown order: cancelling a Deferred handle runs its chain synchronously; whatever that chain can start
     # must be cancelled afterwards
-    r = ctx.rule("R8", "stop() cancels a Deferred handle before the handles its chain can (re)arm", 3, "C")
+    r = ctx.rule("R8", "stop() cancels a Deferred handle before the handles its chain can (re)arm", 2, "C")
     from .util import reachable_funcs
     cstop = ctx.cfg(stop)
 
+    def _live_in_stop(func, astnode):
+        """can this statement run while stop() is in progress?  Not when it sits behind a test of the stopping flag."""
+        cfn = ctx.cfg(func)
+        ns_ = cfn.containing(astnode)
+        return not ns_ or ("self._stopping", False) not in ctx.facts(func)[ns_[0].id]
+
     def arms(func):
-        """handle attrs that func (own scope) assigns a non-None value / appends to"""
+        """handle attrs that func (own scope) assigns a non-None value / appends to - at sites that can run while
+        stop() is in progress"""
         out = set()
         for x in walk_body_shallow(func.body):
             if isinstance(x, ast.Assign) and not (isinstance(x.value, ast.Constant) and x.value.value is None):
                 for t in x.targets:
                     for tt in (t.elts if isinstance(t, ast.Tuple) else [t]):
                         a = self_attr(tt)
-                        if a in active and _is_handle_value(x.value):
+                        if a in active and _is_handle_value(x.value) and _live_in_stop(func, x):
                             out.add(a)
-            if isinstance(x, ast.Call) and call_name(x) == "append" and isinstance(x.func.value, ast.Attribute) and self_attr(x.func.value) in active:
+            if isinstance(x, ast.Call) and call_name(x) == "append" and isinstance(x.func.value, ast.Attribute) and self_attr(x.func.value) in active \
+                    and _live_in_stop(func, x):
                 out.add(self_attr(x.func.value))
         return out
     order_checked = 0
@@ -586,12 +614,18 @@ def run(ctx):
         hs = []
         for f2 in [x for x in prog.funcs.values() if x.cls is ci]:
             al = aliases_of(f2, "self." + h)
+            absorbed = False  # an earlier failure-side stage may have turned the cancellation into a result
             for reg in registrations(f2, prog):
                 if reg["root"] in al:
-                    for hh in (reg["cb"], reg["eb"]):
+                    # what runs when the handle is *cancelled*: the failure-side handlers, and success-side handlers
+                    # registered behind one of them (a success-only stage in front of them is skipped)
+                    run = [reg["eb"]] + ([reg["cb"]] if absorbed and reg["cb"] is not None else [])
+                    for hh in run:
                         g = prog.resolve_callable(f2, hh) if hh is not None else None
                         if g is not None:
                             hs.append(g)
+                    if reg["eb"] is not None:
+                        absorbed = True
         started = set()
 
         def sync_reach(g0):
@@ -605,6 +639,8 @@ def run(ctx):
                 seen[g.qname] = g
                 for x in walk_body_shallow(g.body):
                     if isinstance(x, ast.Call):
+                        if not _live_in_stop(g, x):
+                            continue  # behind `if self._stopping: return`: not taken while stop() runs
                         cal = prog.resolve_call(g, x)
                         if cal is not None:
                             stack.append(cal)
@@ -662,7 +698,7 @@ def run(ctx):
     need(n_fs >= 8, "failure-side registrations of the consumer not found")
 
     # ---- R6 restartable
-    r = ctx.rule("R6", "stop() resets _stopping, and every handle that gates a function start() calls is clear after stop()", 2, "A")
+    r = ctx.rule("R6", "stop() resets _stopping, and every handle that gates a function start() calls is clear after stop()", 4, "A")
     from .util import reachable_funcs
     for g in reachable_funcs(prog, start).values():
         if g.cls is not ci or g is start:
@@ -702,6 +738,25 @@ def run(ctx):
                     "(a reply parked behind the processor leaves the fired Deferred in place)" % (h, g.name, h), where(g, n.stmt),
                     "stop() while a fetch reply is parked; start() again: the stale handle makes the fetcher return at once, the "
                     "restarted consumer never fetches")
+    # a DelayedCall may be cancelled once: stop() either cancels a timer handle under `.active()`, or clears the handle on
+    # every path after cancelling it - else the next stop() (after a restart that did not happen to replace the handle)
+    # cancels the dead timer again
+    for h, k in sorted(active.items()):
+        if k != "delayedcall" or h not in sc:
+            continue
+        for n, c in sc[h]:
+            if call_name(c) != "cancel":
+                continue
+            under_active = any(pol and t.endswith(".active()") and h in t for t, pol in fst[n.id])
+            clears = [m.id for m in cs.nodes if isinstance(node_assign_value(m, h), ast.Constant) and node_assign_value(m, h).value is None]
+            cleared_after = bool(clears) and not cs.normal_exits_from(n.id, avoid=clears)
+            # ... or start() itself (what it calls directly) discards the old handle before anything can cancel it again
+            on_start = any(g2.cls is ci and any(isinstance(node_assign_value(m2, h), ast.Constant) and node_assign_value(m2, h).value is None
+                                                 for m2 in ctx.cfg(g2).nodes) for g2 in reachable_funcs(prog, start).values())
+            r.check(under_active or cleared_after or on_start, "%s#timer(%s)-cancelled-once" % (stop.qname, h),
+                    "stop() cancels the timer self.%s without testing `.active()` and keeps the dead handle" % h, where(stop, c),
+                    "stop() while that timer is pending, start(), stop() again before the handle is replaced: AlreadyCancelled out of "
+                    "stop(), `_stopping` stays set, the start Deferred never fires")
     rs = [n.id for n in cs.nodes if isinstance(node_assign_value(n, "_stopping"), ast.Constant) and node_assign_value(
         n, "_stopping").value is False]
     sets = [n.id for n in cs.nodes if isinstance(node_assign_value(n, "_stopping"), ast.Constant) and node_assign_value(
@@ -712,6 +767,14 @@ def run(ctx):
 
 
 MUTANTS = [
+    {"id": "fetch-error-only-cancelled-is-stop-induced", "file": "consumer.py",
+     "old": "        if self._stopping:\n            # Not really an error: stop() cancelled the request. (The client\n            # reports a request cancelled in flight as FailedPayloadsError.)\n            return\n        # Do we need to abort?\n        if self.request_retry_max_attempts != 0 and self._fetch_attempt_count >= self.request_retry_max_attempts:\n            log.debug(\n                \"%r: Exhausted attempts: %d fetching messages",
+     "new": "        if self._stopping and failure.check(CancelledError):\n            return\n        # Do we need to abort?\n        if self.request_retry_max_attempts != 0 and self._fetch_attempt_count >= self.request_retry_max_attempts:\n            log.debug(\n                \"%r: Exhausted attempts: %d fetching messages",
+     "expect": "C13.R2", "note": "finding F31"},
+    {"id": "commit-timer-handle-kept", "file": "consumer.py",
+     "old": "            if self._commit_call.active():\n                self._commit_call.cancel()\n            self._commit_call = None\n",
+     "new": "            self._commit_call.cancel()\n", "expect": "C13.R6", "note": "finding F32"},
+
     {"id": "shutdown-step-ignores-stop", "file": "consumer.py",
      "old": "            if self._stopping:\n                # stop() cancelled what we were waiting for (the processor, or\n",
      "new": "            if False:\n                # stop() cancelled what we were waiting for (the processor, or\n",
@@ -728,17 +791,17 @@ MUTANTS = [
      "new": "            self.stop()", "expect": "C13.R5", "note": "finding F28"},
 
     {"id": "stop-forgets-retry-call", "file": "consumer.py",
-     "old": "        if self._retry_call:\n            self._retry_call.cancel()\n", "new": "", "expect": "C13.R1"},
+     "old": "        if self._retry_call:\n            if self._retry_call.active():\n                self._retry_call.cancel()\n            self._retry_call = None\n", "new": "", "expect": "C13.R1"},
     {"id": "stop-forgets-commit-req", "file": "consumer.py",
      "old": "        if self._commit_req:\n            self._commit_req.cancel()\n", "new": "", "expect": "C13.R1"},
     {"id": "stop-cancel-conditional", "file": "consumer.py",
-     "old": "        if self._commit_call:\n            self._commit_call.cancel()",
-     "new": "        if self._commit_call and self.consumer_group:\n            self._commit_call.cancel()", "expect": "C13.R1"},
+     "old": "        if self._commit_call:\n            if self._commit_call.active():",
+     "new": "        if self._commit_call and self.consumer_group:\n            if self._commit_call.active():", "expect": "C13.R1"},
     {"id": "autocommit-error-unguarded", "file": "consumer.py",
      "old": "        if self._stopping and failure.check(CancelledError):\n            # Not really an error: stop() cancelled the pending commit\n            return\n",
      "new": "", "expect": "C13.R2"},
     {"id": "fetch-error-unguarded", "file": "consumer.py",
-     "old": "        if self._stopping and failure.check(CancelledError):\n            # Not really an error\n            return\n        # Do we need to abort?\n        if self.request_retry_max_attempts != 0 and self._fetch_attempt_count >= self.request_retry_max_attempts:\n            log.debug(\n                \"%r: Exhausted attempts: %d fetching messages from kafka: %r\",",
+     "old": "        if self._stopping:\n            # Not really an error: stop() cancelled the request. (The client\n            # reports a request cancelled in flight as FailedPayloadsError.)\n            return\n        # Do we need to abort?\n        if self.request_retry_max_attempts != 0 and self._fetch_attempt_count >= self.request_retry_max_attempts:\n            log.debug(\n                \"%r: Exhausted attempts: %d fetching messages from kafka: %r\",",
      "new": "        # Do we need to abort?\n        if self.request_retry_max_attempts != 0 and self._fetch_attempt_count >= self.request_retry_max_attempts:\n            log.debug(\n                \"%r: Exhausted attempts: %d fetching messages from kafka: %r\",",
      "expect": "C13.R2"},
     {"id": "processor-error-unguarded", "file": "consumer.py",
@@ -765,16 +828,9 @@ MUTANTS = [
     {"id": "shutdown-in-progress-skips-final-commit", "file": "consumer.py",
      "old": "                failure.value.deferred.addBoth(_commit_and_stop)", "new": "                failure.value.deferred.addBoth(_handle_shutdown_commit_success)",
      "expect": "C13.R5", "note": "seeded C13-1"},
-    {"id": "fired-commit-timer-not-cleared", "file": "consumer.py",
-     "old": "        if self._commit_call and not self._commit_call.active():\n            self._commit_call = None\n", "new": "", "expect": "C13.R7",
-     "note": "seeded C13-2"},
     {"id": "stop-leaves-fired-request-handle", "file": "consumer.py",
      "old": "            # It may already have fired (a reply parked behind the processor):\n            # don't let a stale handle block the fetcher after a restart.\n            self._request_d = None\n",
      "new": "", "expect": "C13.R6", "note": "finding F15"},
-    {"id": "processor-cancelled-last", "file": "consumer.py",
-     "edits": [("consumer.py", "        # Are we waiting for the processor to complete?\n        if self._processor_d:\n            self._processor_d.cancel()\n", ""),
-               ("consumer.py", "        # Done stopping\n        self._stopping = False", "        if self._processor_d:\n            self._processor_d.cancel()\n        # Done stopping\n        self._stopping = False")],
-     "expect": "C13.R8", "note": "seeded C13-3"},
     {"id": "commit-skip-when-below", "file": "consumer.py",
      "old": "if (self._last_processed_offset is None) or (self._last_processed_offset == self._last_committed_offset):",
      "new": "if (self._last_processed_offset is None) or (self._last_committed_offset is not None and self._last_processed_offset <= self._last_committed_offset):",
@@ -783,6 +839,14 @@ MUTANTS = [
      "expect": "C13.R6"},
 ]
 TWINS = [
-    {"id": "stop-guard-is-not-none", "file": "consumer.py", "old": "        if self._retry_call:\n            self._retry_call.cancel()",
-     "new": "        if self._retry_call is not None:\n            self._retry_call.cancel()"},
+    {"id": "fired-commit-timer-not-cleared", "file": "consumer.py",
+     "old": "        if self._commit_call and not self._commit_call.active():\n            self._commit_call = None\n", "new": "",
+     "note": "seeded C13-2: harmless since F32 (stop() cancels a timer only while active and clears the handle)"},
+    {"id": "processor-cancelled-last", "file": "consumer.py",
+     "edits": [("consumer.py", "        # Are we waiting for the processor to complete?\n        if self._processor_d:\n            self._processor_d.cancel()\n", ""),
+               ("consumer.py", "        # Done stopping\n        self._stopping = False", "        if self._processor_d:\n            self._processor_d.cancel()\n        # Done stopping\n        self._stopping = False")],
+     "note": "seeded C13-3: harmless since F30 (the shutdown step commits nothing once stop() is under way)"},
+
+    {"id": "stop-guard-is-not-none", "file": "consumer.py", "old": "        if self._retry_call:\n            if self._retry_call.active():",
+     "new": "        if self._retry_call is not None:\n            if self._retry_call.active():"},
 ]
